@@ -42,13 +42,19 @@ Eff(schema, m) == CASE schema = "main" -> (IF HasNoneKey(m) THEN "s1" ELSE "main
                     [] OTHER -> schema
 
 \* ------------------------------------------------------------------ grammar
-Kinds == {"sel", "orm", "ins", "upd", "del", "lam", "ddl", "txt"}
+Kinds == {"sel", "orm", "ins", "upd", "del", "lam", "ddl", "txt", "typ"}
 Froms == {"a", "join", "outer", "s1", "xjoin"}
 Crits == {"none", "eq", "in", "eqand", "orin"}
-LamKinds == {"lscalar", "llist", "lcol", "ltab", "lmulti", "lwhere", "lcrit", "lexpr"}
+\* lchain3 / lchain4: lambda_stmt(l1) + l2 + l3 [+ l4] where ONLY the first link holds a structural closure value (the column), the later
+\* links hold literals only (their own closure keys never change): the deeper links must still be looked up under the first link's key
+LamKinds == {"lscalar", "llist", "lcol", "ltab", "lmulti", "lwhere", "lcrit", "lexpr", "lchain3", "lchain4"}
+\* typed constructs (k = "typ"): c = the construct, o = the type; the types differ from Numeric(10) / String() in ONE constructor argument,
+\* absent vs falsy (0, False) vs truthy
+TypC == {"cast", "tcoerce", "literal", "bind"}
+TypO == {"n10", "n10_0", "n10_2", "n10_f", "n10_d0", "s", "s0", "s5"}
 Wraps == {"none", "subq", "cte", "union", "exists"}
 Decos == {"none", "limit", "label", "distinct"}
-Opts == {"none", "selectin", "joined", "defer", "undefer", "ret", "named", "pos"}
+Opts == {"none", "selectin", "joined", "defer", "undefer", "ret", "named", "pos"} \cup TypO
 \* well-formed shapes, per statement kind
 SelShapes == {s \in [k : {"sel"}, f : Froms, c : Crits, w : Wraps, d : Decos, o : {"none"}] :
                  (s.w = "union" => s.d \in {"none", "limit"}) /\ (s.w = "exists" => s.f \in {"a", "join", "outer"})}
@@ -62,7 +68,9 @@ DdlShapes == [k : {"ddl"}, f : {"a", "s1"}, c : {"none"}, w : {"none"}, d : {"no
 \* TextualSelect(text("select id as q, x as r from a [where x = :a]"), [b.c.id, b.c.z], positional = (o = "pos")): the names in the text
 \* match none of the given columns, so looking a column up in a row works iff the statement is positional
 TxtShapes == [k : {"txt"}, f : {"a"}, c : {"none", "eq"}, w : {"none"}, d : {"none"}, o : {"named", "pos"}]
-Shapes == SelShapes \cup OrmShapes \cup InsShapes \cup UpdDelShapes \cup LamShapes \cup DdlShapes \cup TxtShapes
+\* select(a.c.id, cast(a.c.x, T) | type_coerce(a.c.x, T) | literal(n, T)).where(a.c.y == :b)  /  select(a.c.id, a.c.x).where(a.c.y == bindparam(b, T))
+TypShapes == [k : {"typ"}, f : {"a"}, c : TypC, w : {"none"}, d : {"none"}, o : TypO]
+Shapes == SelShapes \cup OrmShapes \cup InsShapes \cup UpdDelShapes \cup LamShapes \cup DdlShapes \cup TxtShapes \cup TypShapes
 WF(s) == s \in Shapes
 Name(s) == s.k \o "|" \o s.f \o "|" \o s.c \o "|" \o s.w \o "|" \o s.d \o "|" \o s.o
 \* shapes that may be executed under a schema map: Core statements over a / s1.a only (b exists only unqualified)
@@ -85,8 +93,8 @@ Flat(q) == IF q = <<>> THEN <<>> ELSE Head(q) \o Flat(Tail(q))
 Card(S) == Cardinality(S)
 
 \* ------------------------------------------------------------------ structure-relevant part of a valuation
-UsesEq(s) == s.c \in {"eq", "eqand", "orin", "lscalar", "lcol", "ltab", "lmulti", "lcrit", "lexpr"}
-UsesList(s) == s.c \in {"in", "orin", "llist", "lwhere"}
+UsesEq(s) == s.c \in {"eq", "eqand", "orin", "lscalar", "lcol", "ltab", "lmulti", "lcrit", "lexpr", "lchain3", "lchain4"}
+UsesList(s) == s.c \in {"in", "orin", "llist", "lwhere", "lchain4"}
 \* `col == None` renders IS NULL: a different statement structure, hence a different cache key (insert VALUES keep a bind)
 \* ("lexpr": the closure holds the finished criterion `a.c.x == v`, built OUTSIDE the lambda - a None there is an honest IS NULL)
 Dev(s, v) == LamNoneBind /\ s.k = "lam" /\ UsesEq(s) /\ s.c # "lexpr" /\ v.a = 0          \* the named deviation applies to this execution
@@ -94,7 +102,7 @@ Dev(s, v) == LamNoneBind /\ s.k = "lam" /\ UsesEq(s) /\ s.c # "lexpr" /\ v.a = 0
 Struct(s, v) == IF s.k \notin {"ins", "txt"} /\ UsesEq(s) /\ v.a = 0 /\ ~Dev(s, v) THEN "null" ELSE "val"
 InLen(s, v) == IF UsesList(s) THEN Len(v.l) ELSE 0 - 1
 \* closure values of a lambda that are not literals take part in the cache key
-LamKey(s, v) == CASE s.c \in {"lcol", "lmulti"} -> v.col [] s.c = "ltab" -> v.tab [] OTHER -> ""
+LamKey(s, v) == CASE s.c \in {"lcol", "lmulti", "lchain3", "lchain4"} -> v.col [] s.c = "ltab" -> v.tab [] OTHER -> ""
 
 \* ------------------------------------------------------------------ rows
 ColVal(col, i) == IF col = "x" THEN X[i] ELSE Y[i]
@@ -108,6 +116,9 @@ Sat(s, v, i) ==
      [] s.c = "lcol" -> ColVal(v.col, i) = v.a
      [] s.c = "lmulti" -> ColVal(v.col, i) = v.a /\ Y[i] # v.b
      [] s.c = "lwhere" -> Y[i] = v.b /\ X[i] # 0 /\ X[i] \in Range(v.l)
+     [] s.c = "lchain3" -> ColVal(v.col, i) = v.a /\ Y[i] # v.b
+     [] s.c = "lchain4" -> ColVal(v.col, i) = v.a /\ Y[i] # v.b /\ i \in Range(v.l)
+     [] s.c \in TypC -> Y[i] = v.b
 NB(i) == Card({j \in 1..Len(BRows) : BRows[j].aid = i})
 FMult(f, i) == CASE f \in {"a", "s1"} -> 1 [] f = "join" -> NB(i) [] f = "outer" -> Max(1, NB(i))
                  [] f = "xjoin" -> IF X[i] = 0 THEN 0 ELSE Card({j \in 1..NRows : X[j] = X[i]})
@@ -115,7 +126,8 @@ ExistsOK(s, v, i) == s.w = "exists" => \E j \in 1..Len(BRows) : BRows[j].aid = i
 Mult(s, v) == [i \in 1..NRows |->
    IF s.w = "union" THEN (IF (Sat(s, v, i) /\ FMult(s.f, i) > 0) \/ Y[i] = v.b THEN 1 ELSE 0)
    ELSE IF Sat(s, v, i) /\ ExistsOK(s, v, i) THEN (IF s.d = "distinct" /\ s.f # "xjoin" THEN Min(1, FMult(s.f, i)) ELSE FMult(s.f, i)) ELSE 0]
-Limited(s, v, q) == IF s.d = "limit" THEN SubSeq(q, 1, Min(v.n, Len(q))) ELSE q
+HasLimit(s) == s.d = "limit" \/ s.c \in {"lchain3", "lchain4"}
+Limited(s, v, q) == IF HasLimit(s) THEN SubSeq(q, 1, Min(v.n, Len(q))) ELSE q
 RECURSIVE Dedupe(_)
 Dedupe(q) == IF Len(q) <= 1 THEN q ELSE IF q[1] = q[2] THEN Dedupe(Tail(q)) ELSE <<q[1]>> \o Dedupe(Tail(q))
 \* table the rows come from (lambda "ltab": the closure's table)
@@ -125,7 +137,7 @@ SelIds(s, v) == LET q == Limited(s, v, Bag(Mult(s, v), 1)) IN IF s.o = "joined" 
 Matching(s, v) == Bag([i \in 1..NRows |-> IF Sat(s, v, i) THEN 1 ELSE 0], 1)
 Ids(s, v, m) ==
    LET off == Off(Eff(RowSchema(s, v), m)) IN
-   CASE s.k \in {"sel", "orm", "lam", "txt"} -> Shift(SelIds(s, v), off)
+   CASE s.k \in {"sel", "orm", "lam", "txt", "typ"} -> Shift(SelIds(s, v), off)
      [] s.k = "ddl" -> <<off>>                                     \* observable of CREATE TABLE: the file in which table d exists afterwards
      [] s.k = "ins" -> IF s.o = "ret" THEN <<NRows + 1 + off>> ELSE <<>>
      [] OTHER -> IF s.o = "ret" THEN Shift(Matching(s, v), off) ELSE <<>>
@@ -144,7 +156,7 @@ RowCount(s, v) == CASE s.k = "ins" /\ s.o = "none" -> 1
 \* ------------------------------------------------------------------ bound parameters, declarative: order of appearance in the SQL
 NullBind == 0 - 1                                       \* a bound NULL
 EqB(v) == IF v.a = 0 THEN <<>> ELSE <<v.a>>
-CritB(s, v) == CASE Dev(s, v) -> IF s.c = "lmulti" THEN <<NullBind, v.b>> ELSE <<NullBind>>
+CritB(s, v) == CASE Dev(s, v) -> IF s.c \in {"lmulti", "lchain3"} THEN <<NullBind, v.b>> ELSE IF s.c = "lchain4" THEN <<NullBind, v.b>> \o v.l ELSE <<NullBind>>
                  [] s.k = "txt" /\ s.c = "eq" -> IF v.a = 0 THEN <<NullBind>> ELSE <<v.a>>
                  [] s.c = "none" -> <<>> [] s.c = "eq" -> EqB(v) [] s.c = "in" -> v.l
                  [] s.c = "eqand" -> EqB(v) \o <<v.b>> [] s.c = "orin" -> EqB(v) \o v.l
@@ -152,7 +164,11 @@ CritB(s, v) == CASE Dev(s, v) -> IF s.c = "lmulti" THEN <<NullBind, v.b>> ELSE <
                  [] s.c = "llist" -> v.l
                  [] s.c = "lmulti" -> EqB(v) \o <<v.b>>
                  [] s.c = "lwhere" -> <<v.b>> \o v.l
-LimitB(s, v) == IF s.d = "limit" THEN <<v.n, 0>> ELSE <<>>       \* SQLite renders LIMIT ? OFFSET ? with a generated 0
+                 [] s.c = "lchain3" -> EqB(v) \o <<v.b>>
+                 [] s.c = "lchain4" -> EqB(v) \o <<v.b>> \o v.l
+                 [] s.c = "literal" -> <<v.n, v.b>>
+                 [] s.c \in {"cast", "tcoerce", "bind"} -> <<v.b>>
+LimitB(s, v) == IF HasLimit(s) THEN <<v.n, 0>> ELSE <<>>       \* SQLite renders LIMIT ? OFFSET ? with a generated 0
 Binds(s, v) ==
    CASE s.k = "ins" -> <<v.a, v.b>>                               \* VALUES (?, ?): None stays a bound NULL (0)
      [] s.k = "ddl" -> <<>>
@@ -163,7 +179,8 @@ Binds(s, v) ==
 \* ------------------------------------------------------------------ bound parameters, mechanism
 \* parameters of the statement in cache-key traversal order; each element is a sequence (an expanding IN list is ONE parameter)
 EqX(v) == IF v.a = 0 THEN <<>> ELSE << <<v.a>> >>
-CritX(s, v) == CASE Dev(s, v) -> IF s.c = "lmulti" THEN << <<NullBind>>, <<v.b>> >> ELSE << <<NullBind>> >>
+CritX(s, v) == CASE Dev(s, v) -> IF s.c \in {"lmulti", "lchain3"} THEN << <<NullBind>>, <<v.b>> >>
+                                  ELSE IF s.c = "lchain4" THEN << <<NullBind>>, <<v.b>>, v.l >> ELSE << <<NullBind>> >>
                  [] s.k = "txt" /\ s.c = "eq" -> IF v.a = 0 THEN << <<NullBind>> >> ELSE << <<v.a>> >>
                  [] s.c = "none" -> <<>> [] s.c = "eq" -> EqX(v) [] s.c = "in" -> << v.l >>
                  [] s.c = "eqand" -> EqX(v) \o << <<v.b>> >> [] s.c = "orin" -> EqX(v) \o << v.l >>
@@ -171,24 +188,29 @@ CritX(s, v) == CASE Dev(s, v) -> IF s.c = "lmulti" THEN << <<NullBind>>, <<v.b>>
                  [] s.c = "llist" -> << v.l >>
                  [] s.c = "lmulti" -> EqX(v) \o << <<v.b>> >>
                  [] s.c = "lwhere" -> << <<v.b>>, v.l >>
+                 [] s.c = "lchain3" -> EqX(v) \o << <<v.b>> >>
+                 [] s.c = "lchain4" -> EqX(v) \o << <<v.b>>, v.l >>
+                 [] s.c = "literal" -> << <<v.n>>, <<v.b>> >>
+                 [] s.c \in {"cast", "tcoerce", "bind"} -> << <<v.b>> >>
 Extract(s, v) ==
    CASE s.k = "ins" -> << <<v.a>>, <<v.b>> >>
      [] s.k = "ddl" -> <<>>
      [] s.k = "upd" -> CritX(s, v) \o << <<v.b>> >>                \* Update._traverse_internals: _where_criteria before _values
      [] s.k = "del" -> CritX(s, v)
-     [] OTHER -> CritX(s, v) \o (IF s.w \in {"exists", "union"} THEN << <<v.b>> >> ELSE <<>>) \o (IF s.d = "limit" THEN << <<v.n>> >> ELSE <<>>)
+     [] OTHER -> CritX(s, v) \o (IF s.w \in {"exists", "union"} THEN << <<v.b>> >> ELSE <<>>) \o (IF HasLimit(s) THEN << <<v.n>> >> ELSE <<>>)
 \* placeholder positions of the compiled form, as indices into the extracted list (0 = a value generated by the compiler);
 \* depends on the statement's structure only (st = Struct), never on values
 NEq(s, st) == IF UsesEq(s) /\ st = "val" THEN 1 ELSE 0
-NCrit(s, st) == CASE s.c = "none" -> 0 [] s.c \in {"eqand", "orin", "lmulti"} -> NEq(s, st) + 1 [] s.c = "lwhere" -> 2
+NCrit(s, st) == CASE s.c = "none" -> 0 [] s.c \in {"eqand", "orin", "lmulti", "lchain3"} -> NEq(s, st) + 1 [] s.c \in {"lwhere", "literal"} -> 2
+                  [] s.c = "lchain4" -> NEq(s, st) + 2 [] s.c \in {"cast", "tcoerce", "bind"} -> 1
                   [] s.c \in {"in", "llist"} -> 1 [] OTHER -> NEq(s, st)
 Order(s, st) ==
    CASE s.k = "ins" -> <<1, 2>>
      [] s.k = "ddl" -> <<>>
      [] s.k = "upd" -> <<NCrit(s, st) + 1>> \o [i \in 1..NCrit(s, st) |-> i]
      [] s.k = "del" -> [i \in 1..NCrit(s, st) |-> i]
-     [] OTHER -> LET n == NCrit(s, st) + (IF s.w \in {"exists", "union"} THEN 1 ELSE 0) + (IF s.d = "limit" THEN 1 ELSE 0)
-                 IN [i \in 1..n |-> i] \o (IF s.d = "limit" THEN <<0>> ELSE <<>>)
+     [] OTHER -> LET n == NCrit(s, st) + (IF s.w \in {"exists", "union"} THEN 1 ELSE 0) + (IF HasLimit(s) THEN 1 ELSE 0)
+                 IN [i \in 1..n |-> i] \o (IF HasLimit(s) THEN <<0>> ELSE <<>>)
 \* compiler.construct_params(extracted_parameters = ex) on a compiled form with positions ord
 Construct(ord, ex) == Flat([i \in 1..Len(ord) |-> IF ord[i] = 0 THEN <<0>> ELSE ex[ord[i]]])
 BindsAgree(s, v) == Construct(Order(s, Struct(s, v)), Extract(s, v)) = Binds(s, v)
@@ -203,7 +225,14 @@ SqlClass(s, v, m) == [sh |-> Name(s), st |-> Struct(s, v), lk |-> LamKey(s, v), 
                       e1 |-> IF s.f \in {"s1", "xjoin"} THEN Eff("s1", m) ELSE IF s.c = "ltab" /\ v.tab # "a" THEN v.tab ELSE "-"]
 \* looking up a row value by the column object given to the statement (C02: part of what "the same result rows" means)
 RowLookup(s, v) == IF s.k # "txt" \/ SelIds(s, v) = <<>> THEN "-" ELSE IF s.o = "pos" THEN "ok" ELSE "NoSuchColumnError"
-F(s, v, m) == [sql |-> SqlClass(s, v, m), lk |-> RowLookup(s, v), binds |-> Binds(s, v), ids |-> Ids(s, v, m), ids2 |-> Ids2(s, v, m), c2 |-> HasIds2(s), rc |-> RowCount(s, v),
+\* class of the values in the second column after the type's result processing (SQLite: no native decimal; "decN" = Decimal with N places)
+TypedValue(s, v) ==
+   IF s.k # "typ" \/ ~\E i \in 1..NRows : Sat(s, v, i) /\ (s.c = "literal" \/ X[i] # 0) THEN "-"
+   ELSE CASE s.c = "bind" -> "int"
+          [] s.o = "n10" -> "dec10" [] s.o \in {"n10_0", "n10_d0"} -> "dec0" [] s.o = "n10_2" -> "dec2"
+          [] s.o = "n10_f" -> IF s.c = "literal" THEN "float" ELSE "int"
+          [] OTHER -> IF s.c = "cast" THEN "str" ELSE "int"
+F(s, v, m) == [sql |-> SqlClass(s, v, m), lk |-> RowLookup(s, v), tv |-> TypedValue(s, v), binds |-> Binds(s, v), ids |-> Ids(s, v, m), ids2 |-> Ids2(s, v, m), c2 |-> HasIds2(s), rc |-> RowCount(s, v),
                sec |-> Secondary(s, v), dev |-> Dev(s, v)]
 
 =============================================================================
